@@ -6,6 +6,7 @@ package cclient
 import (
 	"context"
 	"errors"
+	"fmt"
 	"io"
 	"os"
 	"sync"
@@ -164,7 +165,7 @@ func (c *Bad) do(ctx context.Context, data []byte, expectedLen int) ([]byte, err
 		c.hooks.BeforeWrite(data[1:]) // DEFECT (R19.1): not the slice that is written
 	}
 	if _, err := c.conn.Write(data); err != nil {
-		return nil, &ClientError{Err: err}
+		return nil, &ClientError{Err: fmt.Errorf("write failed: %v", err)} // DEFECT (R8.3): cause flattened into text
 	}
 	const maxBytes = packetMaxLen + 10
 	received := [maxBytes]byte{}
